@@ -19,7 +19,7 @@ RULE = ("the four annealers on dicts, labelled and Matrix models (gaps, stale va
         "temperatures / empty, 'linear' and 'geometric' with and without temperature_range, with and without initial_state, "
         "both visiting orders, num_anneals in {-1,0,1,2,3,4}, random seeds; the C extension is rebuilt from /repo's sources; "
         "non-trivial = at least two spins and one coupling; distinct by canonical JSON")
-THEOREMS = "C11_quso_kernel C11_puso_kernel C11_value_with_offset C11_package C11_arrays C11_prepared_matrix C11_prepared_labelled C11_anneal_quso_matrix C11_anneal_spin C11_anneal_bool C11_none_spin C11_none_bool"
+THEOREMS = "C11_quso_kernel C11_puso_kernel C11_value_with_offset C11_package C11_arrays C11_prepared_matrix C11_prepared_labelled C11_anneal_quso_matrix C11_anneal_spin C11_anneal_renumbered C11_anneal_bool C11_none_spin C11_none_bool"
 MODELLED = ("exp() is not modelled: acceptance at T > 0 consults rational enclosures of exp(-dE/T) (mpmath, 60 digits, widened "
             "by 2^-40); decisions inside an enclosure make the model's answer Unknown and are counted, not compared")
 TRUSTED = ["gcc build of the extension from /repo's C sources into a scratch directory",
